@@ -496,6 +496,23 @@ Example ex_transform :
   is_enough [2863311529] = false /\ is_enough [2863311530] = true.
 Proof. vm_compute. repeat split; reflexivity. Qed.
 
+(** The hypothesis [nonneg] (bonded tokens are never negative: a staking invariant, not something
+    the snapshot code checks) is needed: with a negative share the total shrinks and another
+    validator's power exceeds 2^32.  The harness replays this witness on the real function
+    (histogram "hypothesis-needed"). *)
+Example nonneg_hypothesis_needed :
+  let vals := [ {| v_addr := 1; v_share := -5; v_infos := [ {| ei_type := "evm"; ei_chain := "c0"; ei_addr := 11; ei_traits := [] |} ] |};
+                {| v_addr := 2; v_share := 10; v_infos := [ {| ei_type := "evm"; ei_chain := "c0"; ei_addr := 21; ei_traits := [] |} ] |} ] in
+  transform_vals vals "c0" = [(21, 8589934592); (11, 0)] /\
+  ~ nonneg vals /\
+  ~ (zsum (map snd (transform_vals vals "c0")) <= 4294967296) /\
+  is_enough (map snd (transform_vals vals "c0")) = true.
+Proof.
+  vm_compute. repeat split; try reflexivity.
+  - intros H. inversion H as [|? ? H1 _]. apply H1. reflexivity.
+  - intros H. apply H. reflexivity.
+Qed.
+
 Definition ex_cops : list cop :=
   [ CValset (OChains [("c0", true); ("c1", false)]);
     CValset (OStaking [ {| sv_addr := 1; sv_bonded := true; sv_jailed := false; sv_tokens := 10 |};
